@@ -1057,6 +1057,12 @@ func generate(prop, tier string, seed uint64) []string {
 		rep(300, func() { x.wlgenOp("wlgen", "") })
 		x.emit("wlgen words=nil L=3 sep=char:_ cap=_ tape=1.2.3")
 		x.emit("chargen r=0/0/0/0/_/-/_ tape=1.2.3")
+	case "C14":
+		// the sequential behaviour of what the racer calls concurrently
+		rep(200, func() { x.chargenOp(x.recipe(x.g.intn(4)), "") })
+		rep(150, func() { x.charinfoOp(x.recipe(x.g.intn(4))) })
+		rep(200, func() { x.wlgenOp("wlgen", "") })
+		x.presetCells()
 	case "C15":
 		rep(60, func() { x.historyOps(25) })
 	case "C16":
